@@ -1,5 +1,5 @@
 """C17 — reused comparison targets carry nothing over (the history clause is decided by typestate)."""
-from ..rules import validate, typestate, fields, vis, eqord, witness, casts, summary
+from ..rules import effbs, validate, typestate, fields, vis, eqord, witness, casts, summary, features
 
 EXPL = ("Decides the history clause: typestate Zero/Unknown over the 64xu64 occupancy-mask arrays of FuzzyHashCompareTarget (two "
         "locations, through the block_hash_K_mut views) and BlockHashPositionArray, with effects inferred from bodies (Clear = whole "
@@ -15,7 +15,7 @@ EXPL = ("Decides the history clause: typestate Zero/Unknown over the 64xu64 occu
 
 
 def run(ctx):
-    cfgs = ["rel"] if ctx.tier == "quick" else ["rel", "dbg", "unsafe", "unchecked", "nodef"]
+    cfgs = ["rel", "unchecked"] if ctx.tier == "quick" else ["rel", "dbg", "unsafe", "unchecked", "nodef"]
     ctx.progs(cfgs)  # build all configurations in parallel
     for c in cfgs:
         prog = ctx.prog(c)
@@ -29,6 +29,10 @@ def run(ctx):
         ctx.guard("C17", "complete", lambda: fields.dest_complete(ctx, prog, scope=r"internals::compare::|<internals::compare::", floor=1))
         ctx.guard("C17", "vis", lambda: vis.representation_private(ctx, prog))
         ctx.guard("C17", "panic-pure", lambda: validate.panic_purity(ctx, prog))
+        if c == "unchecked":
+            # the `_unchecked` forms of the comparison API are their `_internal` bodies (a re-implemented twin is a second, unchecked implementation)
+            ctx.guard("C17", "twins", lambda: features.twins(ctx, prog, scope='internals::compare::|position_array::', floor=8))
+        ctx.guard("C17", "distance-exits", lambda: effbs.distance_exits(ctx, prog))
         ctx.guard("C17", "summaries", lambda: summary.check(ctx, prog, 'compare::position_array::|FuzzyHashCompareTarget::(new|init_from|block_hash_[12]|is_equiv|full_eq|log_block_size|block_size)|core::default::Default>::default', floor=10))
         if c == "dbg":
             ctx.guard("C17", "contracts", lambda: validate.constructors(ctx, prog))
